@@ -13,7 +13,8 @@ MODEL_VIEW = ("fun c => match c with Plain c => model_view Run.GenBuses.low_rom_
               "| Swept _ => (Err EOther, Err EOther) end")
 THEOREMS = ["C04_physical", "C04_mirror", "C04_ram", "C04_unmapped", "C04_advance", "C04_advance_ram",
             "C04_add_0", "C04_add_add", "C04_map_covers", "C04_lorom", "C04_hirom",
-            "C04_live_lorom", "C04_live_hirom"]
+            "C04_live_lorom", "C04_live_hirom", "C04_advance_sub", "C04_add_0_sub", "C04_add_add_sub",
+            "C04_hirom_not_covers", "C04_hirom_covers_sub", "C04_hirom_advance", "C04_advance_any"]
 RULE = ("Address.physical and Address.__add__ on the built-in LoROM/HiROM buses (every bank x boundary "
         "offsets x boundary increments) and on randomly drawn Bus.map configurations (32K/64K windows, "
         "mirrors, RAM, overlaps); a case is non-trivial when the address is mapped; distinct by "
@@ -49,8 +50,10 @@ def instantiate(gen_q):
         "Proof. vm_compute. reflexivity. Qed.\n"
         "Definition C04_live_low := C04_live_lorom _ live_low_agrees.\n"
         "Definition C04_live_high := C04_live_hirom _ live_high_agrees.\n"
+        "From A816 Require Import Proofs.CoversSub.\n"
+        "Definition C04_live_high_sub := live_hirom_covers_sub _ live_high_agrees.\n"
     )
-    return text, ["C04_live_low", "C04_live_high"]
+    return text, ["C04_live_low", "C04_live_high", "C04_live_high_sub"]
 
 
 OFFS = [0, 1, 0x7FFF, 0x8000, 0x8001, 0xFFFE, 0xFFFF, 0x1234, 0x89AB]
